@@ -90,17 +90,20 @@ def functions_of(repo, module):
 
 
 def check_alias(ctx, repo, mods):
+    """R1 / R2.  Construct keys name the *public* entry point, the caller parameter (R1) or the constructor parameter (R2) and the
+    kind of sink -- never the private helpers on the way (they only appear in the detail text), so moving code between helpers
+    does not rename a finding."""
     eng = AliasEngine(repo)
     names = {}
     for m in mods:
         for c in classes_of(repo, m):
             names.setdefault(c.name, []).append(c)
-    n_entries = 0
     for m in mods:
         for c in classes_of(repo, m):
             cname = c.name if len(names[c.name]) == 1 else c.qual
             params = ctor_params(repo, c)
             own = [mn for mn in c.methods if mn not in ENTRY and not (mn.startswith("__") and mn.endswith("__"))]
+            reached = set()  # fit sites reached from a public entry point of this class
             for meth in list(ENTRY) + own:
                 hit = repo.lookup_method(c, meth)
                 if hit is None:
@@ -109,66 +112,67 @@ def check_alias(ctx, repo, mods):
                 if c.is_static(meth) or k.is_static(meth) or "classmethod" in k.decorators.get(meth, []) or meth in k.properties:
                     continue
                 s = eng.summary(fn, k.module, c, k)
-                n_entries += 1
-                ctx.count("entry_points" if meth in ENTRY else "helper_methods")
+                public = meth in ENTRY
+                ctx.count("entry_points" if public else "helper_methods")
                 formal = [p for p in astq.all_param_names(fn, skip_self=True)]
                 loc = ctx.loc(k.module, fn)
                 tag = "%s.%s" % (cname, meth)
+                if public:
+                    _judge_r1(ctx, tag, formal, s, loc)
+                # ---- R2: .fit*/fit_transform calls reached from this method
+                sites = set(s.sites)
+                if public:
+                    reached |= {x[0] for x in sites}
+                else:
+                    sites = {x for x in sites if x[0] not in reached}  # helpers only for what no public entry point reaches
+                    if not sites:
+                        continue
+                site_locs = {x[0] for x in sites}
+                by_param = {}
+                for ev in s.events:
+                    if ev.kind == "fit" and ev.loc in site_locs and ev.origin.startswith("self.") and ev.origin[5:] in params:
+                        by_param.setdefault(ev.origin, []).append(ev)
                 bad = False
-                seen = set()
-                for ev in s.events:
-                    # R1 is judged at the public entry points (helpers may legitimately fill buffers handed to them)
-                    if ev.kind != "write" or ev.origin not in formal or meth not in ENTRY:
-                        continue
-                    chain = "<-".join(ev.chain)
-                    key = "%s:%s:%s%s" % (tag, ev.origin, ev.desc, ("<-" + chain) if chain else "")
-                    if key in seen:
-                        continue
-                    seen.add(key)
-                    if "augassign" in ev.desc and ev.origin not in DATA_PARAMS and not ev.chain:
-                        ctx.info("%s: augmented assignment on non-data parameter %s (rebinding for scalars)" % (tag, ev.origin))
-                        continue
-                    if ev.chain and "augassign" in ev.desc and ev.origin not in DATA_PARAMS:
-                        continue
+                for origin, evs in sorted(by_param.items()):
                     bad = True
-                    what = ("%s(%s): caller argument `%s` is written in place (%s at %s%s)"
-                            % (tag, ", ".join(formal), ev.origin, ev.desc, ev.loc, (", reached through " + " -> ".join(ev.chain)) if ev.chain else ""))
-                    if ev.sure:
-                        ctx.violation("R1", key, what, ev.loc, witness={"origin": ev.origin, "sink": ev.desc, "via": ev.via,
-                                                                        "chain": list(ev.chain), "sink_loc": ev.loc})
+                    key = "%s:%s:%s" % (cname, origin, meth)
+                    where = "; ".join(sorted({"%s%s" % (e.loc, (" via " + "->".join(e.chain)) if e.chain else "") for e in evs}))
+                    if any(e.sure for e in evs):
+                        ctx.violation("R2", key, "%s fits the constructor-parameter object %s itself (no clone): fitting mutates the user's "
+                                      "component and the estimator's parameters [%s]" % (tag, origin, where), evs[0].loc,
+                                      witness={"receiver": origin, "sites": where})
                     else:
-                        ctx.undecided("R1", key, "an in-place sink is reached through a value with unknown relation to `%s` (%s at %s%s)"
-                                      % (ev.origin, ev.desc, ev.loc, (" via " + "->".join(ev.chain)) if ev.chain else ""), ev.loc)
-                if not bad and meth in ENTRY:
-                    ctx.ok("R1", tag, "no in-place sink reachable through an alias/view of (%s); returns %r" % (", ".join(formal), s.ret), loc,
-                           nontrivial=bool(formal))
-                # ---- R2: every .fit*/fit_transform call reached from this entry point
-                fit_ev = {}
-                for ev in s.events:
-                    if ev.kind == "fit":
-                        fit_ev.setdefault(ev.loc, []).append(ev)
-                per_fn = {}
-                for (sloc, fname, mname) in sorted(s.sites, key=lambda x: (x[1], int(x[0].rsplit(":", 1)[1]) if x[0].rsplit(":", 1)[1].isdigit() else 0)):
-                    idx = per_fn.get(fname, 0)
-                    per_fn[fname] = idx + 1
-                    evs = [e for e in fit_ev.get(sloc, []) if e.origin.startswith("self.") and e.origin[5:] in params]
-                    unsure = [e for e in fit_ev.get(sloc, []) if not e.sure and (e.origin in formal or e.origin.startswith("self."))]
-                    if evs and any(e.sure for e in evs):
-                        e = [x for x in evs if x.sure][0]
-                        key = "%s:%s.%s@%s#%d" % (tag, e.origin, mname, fname, idx)
-                        ctx.violation("R2", key, "%s: `.%s(...)` at %s is called on the constructor-parameter object %s itself "
-                                      "(no clone): fitting mutates the user's component and the estimator's parameters%s"
-                                      % (tag, mname, sloc, e.origin, (" (through " + "->".join(e.chain) + ")") if e.chain else ""), sloc,
-                                      witness={"receiver": e.origin, "site": sloc})
-                    elif evs or [u for u in unsure if u.origin.startswith("self.") and u.origin[5:] in params]:
-                        ctx.undecided("R2", "%s:%s#%d.%s" % (tag, fname, idx, mname),
-                                      "receiver of .%s at %s has an unknown relation to a constructor parameter" % (mname, sloc), sloc)
-                    else:
-                        ctx.ok("R2", "%s:%s#%d.%s" % (tag, fname, idx, mname),
-                               "receiver of .%s at %s is not a constructor-parameter object (clone / constructor result / fitted copy)"
-                               % (mname, sloc), sloc)
+                        ctx.undecided("R2", key, "receiver of a .fit call has an unknown relation to %s [%s]" % (origin, where), evs[0].loc)
+                if not bad and sites:
+                    ctx.ok("R2", tag + ":fit-calls", "%d reached .fit/.fit_transform call(s); no receiver is a constructor-parameter object "
+                           "(clone / constructor result / fitted copy): %s" % (len(sites), ", ".join(sorted(site_locs))), loc)
     ctx.count("functions_summarised", eng.stats["functions"])
     return eng
+
+
+def _judge_r1(ctx, tag, formal, s, loc):
+    groups = {}
+    for ev in s.events:
+        if ev.kind != "write" or ev.origin not in formal:
+            continue
+        if "augassign" in ev.desc and ev.origin not in DATA_PARAMS:
+            if not ev.chain:
+                ctx.info("%s: augmented assignment on non-data parameter %s (rebinding for scalars)" % (tag, ev.origin))
+            continue
+        groups.setdefault((ev.origin, ev.desc), []).append(ev)
+    for (origin, desc), evs in sorted(groups.items()):
+        key = "%s:%s:%s" % (tag, origin, desc)
+        where = "; ".join(sorted({"%s%s" % (e.loc, (" reached through " + " -> ".join(e.chain)) if e.chain else "") for e in evs}))
+        sure = [e for e in evs if e.sure]
+        if sure:
+            ctx.violation("R1", key, "%s(%s): caller argument `%s` is written in place (%s) [%s]" % (tag, ", ".join(formal), origin, desc, where),
+                          sure[0].loc, witness={"origin": origin, "sink": desc, "sites": where})
+        else:
+            ctx.undecided("R1", key, "an in-place sink (%s) is reached through a value with unknown relation to `%s` [%s]" % (desc, origin, where),
+                          evs[0].loc)
+    if not groups:
+        ctx.ok("R1", tag, "no in-place sink reachable through an alias/view of (%s); returns %r" % (", ".join(formal), s.ret), loc,
+               nontrivial=bool(formal))
 
 
 def widened_scope(ctx, repo, mods, eng):
@@ -479,6 +483,82 @@ def check_rng(ctx, repo, mods):
                           "the object is copied per worker" % (q, ", ".join(ast.unparse(b) for b in bad)), ctx.loc(m, call))
 
 
+def check_seed_forwarding(ctx, repo, mods):
+    """R3 (e): a seed with provenance self.random_state that is forwarded to a member estimator by
+    ``<member>.set_params(random_state=S)`` must reach it on every path: the call may be guarded by ``S is not None`` but
+    not by the truthiness of S (seed 0 is falsy) and must precede the member's ``.fit`` on all paths."""
+    from ..cfg import CFG
+    scope = RngScope(repo, mods)
+    for (m, q, fn, c) in scope.funcs:
+        sites = []
+        for call in astq.calls(fn):
+            if isinstance(call.func, ast.Attribute) and call.func.attr == "set_params":
+                kw = [k for k in call.keywords if k.arg in SEED_PARAMS]
+                if kw:
+                    sites.append((call, kw[0].value))
+        if not sites:
+            continue
+        g = CFG(fn)
+        for call, seed in sites:
+            recv = astq.canon(call.func.value)
+            key = "%s:seed-forwarding:%s" % (q, recv)
+            loc = ctx.loc(m, call)
+            ok, why = scope.seed_ok(m, fn, c, seed)
+            if ok is not True:
+                ctx.check(ok, "R3", key, "", "%s forwards a seed to `%s` that is not derived from self.random_state: %s" % (q, recv, why), loc)
+                continue
+            node = g.node_of(call)
+            sc = astq.canon(seed)
+            verdict, msg = True, "unconditional"
+            for test, branch in (g.guards_of(node) if node is not None else []):
+                kind = _seed_guard(test, sc)
+                if kind == "none-test":
+                    msg = "guarded only by an `is None` test of the seed"
+                elif kind == "truthiness":
+                    verdict, msg = False, ("the call is guarded by the truthiness of the seed (`%s`): the valid seed 0 is falsy, so with "
+                                           "random_state=0 the member keeps its own unseeded state and results are not reproducible" % ast.unparse(test))
+                    break
+                elif kind == "unrelated":
+                    if verdict is True:
+                        verdict, msg = None, "the call is guarded by `%s`, which does not test the seed" % ast.unparse(test)
+            if verdict is True:
+                # must precede every .fit on the same receiver
+                IN, _ = g.forward_must(lambda n_, call=call: any(x is call for x in n_.calls()))
+                for n2 in g.nodes:
+                    for c2 in n2.calls():
+                        if isinstance(c2.func, ast.Attribute) and c2.func.attr in ("fit", "fit_transform") and astq.canon(c2.func.value) == recv:
+                            passed = IN[n2.id] or any(x is call for x in n2.calls())
+                            gs = g.guards_of(node)
+                            none_only = bool(gs) and all(_seed_guard(t, sc) == "none-test" for t, b in gs)
+                            if not passed and not none_only:
+                                verdict, msg = False, "`%s.fit` at line %s can be reached without the seed having been forwarded" % (recv, c2.lineno)
+            ctx.check(verdict, "R3", key, "seed %s reaches `%s` on every path (%s)" % (why, recv, msg),
+                      "%s: %s" % (q, msg), loc)
+
+
+def _seed_guard(test, sc):
+    """classify a dominating condition with respect to the seed expression ``sc`` (canonical string)"""
+    def mentions(e):
+        return any(astq.canon(x) == sc for x in ast.walk(e) if isinstance(x, (ast.Name, ast.Attribute)))
+
+    if not mentions(test):
+        return "unrelated"
+    t = test
+    if isinstance(t, ast.UnaryOp) and isinstance(t.op, ast.Not):
+        t = t.operand
+    if isinstance(t, ast.Compare) and len(t.ops) == 1 and isinstance(t.ops[0], (ast.Is, ast.IsNot)) and astq.canon(t.left) == sc \
+            and isinstance(t.comparators[0], ast.Constant) and t.comparators[0].value is None:
+        return "none-test"
+    if astq.canon(t) == sc:
+        return "truthiness"
+    if isinstance(t, ast.BoolOp) and any(astq.canon(v) == sc or (isinstance(v, ast.UnaryOp) and astq.canon(v.operand) == sc) for v in t.values):
+        return "truthiness"
+    if isinstance(t, ast.Compare) and astq.canon(t.left) == sc and len(t.ops) == 1 and isinstance(t.ops[0], (ast.Gt, ast.NotEq, ast.GtE, ast.Lt)) \
+            and isinstance(t.comparators[0], ast.Constant) and t.comparators[0].value in (0, 0.0):
+        return "truthiness"
+    return "unrelated"
+
+
 # ====================================================================================== R4
 
 
@@ -692,6 +772,170 @@ def check_parallel(ctx, repo, mods):
                         n += 1
 
 
+def check_parallel_siblings(ctx, repo, mods):
+    """An ``if`` whose one branch collects per-item results with Parallel(...)(delayed(f)(args) for v in it) and whose other
+    branch computes the same items sequentially must apply the same per-item computation and the same decisions:
+    after replacing ``res[v]`` by ``f(args)`` and inlining the per-item temporaries, the two loops are compared statement by statement."""
+    scope = RngScope(repo, mods)
+    for (m, q, fn, c) in scope.funcs:
+        for node in astq.walk_no_nested(fn):
+            if not isinstance(node, ast.If) or not node.orelse:
+                continue
+            def par_sites(stmts):
+                out = []
+                for st in stmts:
+                    for x in ast.walk(st):
+                        if isinstance(x, ast.Call) and isinstance(x.func, ast.Call) and \
+                                (scope.ext(m, fn, x.func.func) or "") in ("joblib.Parallel", "joblib.parallel.Parallel"):
+                            out.append(x)
+                return out
+            pa, pb = par_sites(node.body), par_sites(node.orelse)
+            if bool(pa) == bool(pb):
+                continue
+            par, seq = (node.body, node.orelse) if pa else (node.orelse, node.body)
+            key = "%s:parallel-vs-sequential" % q
+            loc = ctx.loc(m, node)
+            try:
+                a = _norm_parallel_branch(scope, m, fn, par)
+                b = _norm_sequential_branch(seq)
+            except Undecided as e:
+                ctx.undecided("R5", key, "cannot align the parallel and the sequential branch: %s" % e, loc)
+                continue
+            diffs = _stmt_diffs(a, b)
+            if diffs is None:
+                ctx.undecided("R5", key, "the parallel and the sequential branch have different statement structure", loc)
+            elif diffs:
+                ctx.violation("R5", key, "%s: the n_jobs branch and the sequential branch of the same computation disagree: %s -- the result "
+                              "depends on n_jobs" % (q, "; ".join("parallel `%s` vs sequential `%s`" % d for d in diffs[:3])), loc,
+                              witness={"differences": ["%s | %s" % d for d in diffs]})
+            else:
+                ctx.ok("R5", key, "both branches apply the same per-item computation and decisions (%d statements compared)" % len(a), loc)
+
+
+class Undecided(Exception):
+    pass
+
+
+def _flatten(stmts):
+    """`if A: <always leaves> else: S`  ==  `if A: <leaves>` followed by S"""
+    out = []
+    for st in stmts:
+        if isinstance(st, ast.If):
+            body = _flatten(st.body)
+            orelse = _flatten(st.orelse)
+            if body and isinstance(body[-1], (ast.Return, ast.Raise, ast.Continue, ast.Break)) and orelse:
+                out.append(ast.If(test=st.test, body=body, orelse=[]))
+                out.extend(orelse)
+                continue
+            out.append(ast.If(test=st.test, body=body, orelse=orelse))
+        else:
+            out.append(st)
+    return out
+
+
+class _Sub(ast.NodeTransformer):
+    def __init__(self, fn_):
+        self.fn_ = fn_
+
+    def generic_visit(self, node):
+        r = self.fn_(node)
+        if r is not None:
+            return r
+        return super().generic_visit(node)
+
+
+def _norm_parallel_branch(scope, m, fn, stmts):
+    import copy
+    if len(stmts) != 2 or not isinstance(stmts[0], ast.Assign) or not isinstance(stmts[1], ast.For):
+        raise Undecided("parallel branch is not `res = Parallel(...)(...)` followed by one loop")
+    asg, loop = stmts
+    call = asg.value
+    if not (len(asg.targets) == 1 and isinstance(asg.targets[0], ast.Name) and isinstance(call, ast.Call) and len(call.args) == 1
+            and isinstance(call.args[0], (ast.GeneratorExp, ast.ListComp)) and len(call.args[0].generators) == 1):
+        raise Undecided("unsupported Parallel call shape")
+    res = asg.targets[0].id
+    gen = call.args[0]
+    g = gen.generators[0]
+    task = gen.elt
+    if not (isinstance(task, ast.Call) and isinstance(task.func, ast.Call) and (scope.ext(m, fn, task.func.func) or "").endswith("delayed")
+            and task.func.args and isinstance(g.target, ast.Name) and not g.ifs):
+        raise Undecided("task is not delayed(f)(args)")
+    item = ast.Call(func=task.func.args[0], args=task.args, keywords=task.keywords)
+    if not (isinstance(loop.target, ast.Name) and astq.canon(loop.iter) == astq.canon(g.iter)):
+        raise Undecided("the consuming loop does not iterate the same sequence as the tasks")
+    lv, gv = loop.target.id, g.target.id
+
+    def repl(node):
+        if isinstance(node, ast.Subscript) and isinstance(node.value, ast.Name) and node.value.id == res and isinstance(node.slice, ast.Name) \
+                and node.slice.id == lv:
+            it = copy.deepcopy(item)
+            return _Sub(lambda n_: ast.Name(id="$i", ctx=ast.Load()) if isinstance(n_, ast.Name) and n_.id == gv else None).visit(it)
+        if isinstance(node, ast.Name) and node.id == lv:
+            return ast.Name(id="$i", ctx=ast.Load())
+        if isinstance(node, ast.Name) and node.id == res:
+            raise Undecided("results are used other than as res[loop variable]")
+        return None
+
+    body = [_Sub(repl).visit(copy.deepcopy(st)) for st in loop.body]
+    return [("iter", astq.canon(loop.iter))] + _canon_stmts(_flatten(body))
+
+
+def _norm_sequential_branch(stmts):
+    import copy
+    if len(stmts) != 1 or not isinstance(stmts[0], ast.For) or not isinstance(stmts[0].target, ast.Name):
+        raise Undecided("sequential branch is not a single loop")
+    loop = stmts[0]
+    lv = loop.target.id
+    body = _flatten([copy.deepcopy(st) for st in loop.body])
+    # inline per-item temporaries (single plain assignment at the top level of the loop body)
+    temps = {}
+    out = []
+    for st in body:
+        def repl(node):
+            if isinstance(node, ast.Name) and isinstance(node.ctx, ast.Load) and node.id in temps:
+                return copy.deepcopy(temps[node.id])
+            if isinstance(node, ast.Name) and node.id == lv:
+                return ast.Name(id="$i", ctx=ast.Load())
+            return None
+        if isinstance(st, ast.Assign) and len(st.targets) == 1 and isinstance(st.targets[0], ast.Name) and isinstance(st.value, ast.Call):
+            temps[st.targets[0].id] = _Sub(repl).visit(st.value)
+            continue
+        out.append(_Sub(repl).visit(st))
+    return [("iter", astq.canon(loop.iter))] + _canon_stmts(out)
+
+
+def _canon_stmts(stmts):
+    """flat list of (kind, canonical text) with nesting markers"""
+    out = []
+    for st in stmts:
+        if isinstance(st, ast.If):
+            out.append(("if", astq.canon(st.test)))
+            out.extend(_canon_stmts(st.body))
+            out.append(("else", ""))
+            out.extend(_canon_stmts(st.orelse))
+            out.append(("endif", ""))
+        elif isinstance(st, ast.Return):
+            out.append(("return", astq.canon(st.value)))
+        elif isinstance(st, ast.AugAssign):
+            out.append(("aug:" + type(st.op).__name__ + ":" + astq.canon(st.target), astq.canon(st.value)))
+        elif isinstance(st, ast.Assign):
+            out.append(("assign:" + ",".join(astq.canon(t) for t in st.targets), astq.canon(st.value)))
+        elif isinstance(st, ast.Expr):
+            out.append(("expr", astq.canon(st.value)))
+        elif isinstance(st, (ast.Continue, ast.Break, ast.Pass)):
+            out.append((type(st).__name__.lower(), ""))
+        else:
+            raise Undecided("statement kind %s in a per-item loop" % type(st).__name__)
+    return out
+
+
+def _stmt_diffs(a, b):
+    """None if the skeletons differ, else the list of (parallel text, sequential text) of differing leaves"""
+    if len(a) != len(b) or any(x[0] != y[0] for x, y in zip(a, b)):
+        return None
+    return [(x[1], y[1]) for x, y in zip(a, b) if x[1] != y[1]]
+
+
 def _reordering_wrapper(scope, m, fn, stmt, call):
     if stmt is None:
         return None
@@ -819,11 +1063,13 @@ def run(ctx):
     if ctx.tier == "thorough":
         widened_scope(ctx, repo, mods, eng)
     check_rng(ctx, repo, mods)
+    check_seed_forwarding(ctx, repo, mods)
     check_pickle(ctx, repo, mods)
     check_parallel(ctx, repo, mods)
+    check_parallel_siblings(ctx, repo, mods)
     # floors = instance counts confirmed by hand on commit 132f3d5 (minus a small margin for refactorings)
     ctx.floor("R1", 125)  # 145 public entry points of 43 classes in 26 anchored modules
-    ctx.floor("R2", 12)   # 17 reached .fit/.fit_transform call sites
+    ctx.floor("R2", 10)   # public entry points (and orphan helpers) that reach a .fit/.fit_transform call
     ctx.floor("R3", 150)  # 210 functions scanned; 8 generator constructions, 4 parameter/attribute draws, 6 delayed sites
     ctx.floor("R4", 35)   # 43 classes
     ctx.floor("R5", 10)   # 6 Parallel sites (source/index + consumer each) + 1 cross-method pairing
